@@ -64,10 +64,10 @@ package util
 // Precondition "exactly one '.'" (oneDot) is an obligation at every call site under contract.
 //@ ufunc fullDB (String) String
 //@ ufunc fullColl (String) String
-//@ smtaxiom fullDBDef for GetCollectionNameFromFull GetFullCollectionName: (forall ((s String)) (! (= (fullDB s) (str.substr s 0 (str.indexof s "." 0))) :pattern ((fullDB s))))
-//@ smtaxiom fullCollDef for GetCollectionNameFromFull GetFullCollectionName: (forall ((s String)) (! (= (fullColl s) (str.substr s (+ (str.indexof s "." 0) 1) (str.len s))) :pattern ((fullColl s))))
+//@ smtaxiom fullDBDef for GetCollectionNameFromFull GetFullCollectionName GetMatchCollectionInfo GetCollectionInfos: (forall ((s String)) (! (= (fullDB s) (str.substr s 0 (str.indexof s "." 0))) :pattern ((fullDB s))))
+//@ smtaxiom fullCollDef for GetCollectionNameFromFull GetFullCollectionName GetMatchCollectionInfo GetCollectionInfos: (forall ((s String)) (! (= (fullColl s) (str.substr s (+ (str.indexof s "." 0) 1) (str.len s))) :pattern ((fullColl s))))
 //@ ufunc oneDot (String) Bool
-//@ smtaxiom oneDotDef for GetCollectionNameFromFull GetFullCollectionName: (forall ((s String)) (! (= (oneDot s) (and (str.contains s ".") (not (str.contains (str.substr s (+ (str.indexof s "." 0) 1) (str.len s)) ".")))) :pattern ((oneDot s))))
+//@ smtaxiom oneDotDef for GetCollectionNameFromFull GetFullCollectionName GetMatchCollectionInfo GetCollectionInfos: (forall ((s String)) (! (= (oneDot s) (and (str.contains s ".") (not (str.contains (str.substr s (+ (str.indexof s "." 0) 1) (str.len s)) ".")))) :pattern ((oneDot s))))
 
 //@ func GetCollectionNameFromFull
 //@   props C10 C19 C09
